@@ -155,6 +155,15 @@ func c20StatementSites(r *Rng, n int) []c20Site {
 		{fmt.Sprintf("if %s == 1 then sink(1) elseif %s == 1 then sink(2) end", a, b), m(), "near-if-diff-name"},
 		{fmt.Sprintf("if %s == 1 then sink(1) end if %s == 1 then sink(2) end", a, a), m(), "near-two-separate-ifs"},
 		{fmt.Sprintf("if (%s) then sink(1) elseif %s then sink(2) end", a, a), m(19, expDC), "dc-if-parens"},
+		// ... with conditions that are literals, calls, member paths, operators
+		{fmt.Sprintf("if %s then sink(1) elseif nil then sink(2) elseif nil then sink(3) end", a), m(19, 1), "dup-if-cond-literal-nil"},
+		{fmt.Sprintf("if %s then sink(1) elseif false then sink(2) elseif false then sink(3) end", a), m(19, 1), "dup-if-cond-literal-false"},
+		{fmt.Sprintf("if %s then sink(1) elseif true then sink(2) elseif true then sink(3) end", a), m(19, 1), "dup-if-cond-literal-true"},
+		{fmt.Sprintf("if %s == nil then sink(1) elseif %s == nil then sink(2) end", a, a), m(19, 1), "dup-if-cond-compare-nil"},
+		{fmt.Sprintf("if not %s then sink(1) elseif not %s then sink(2) end", a, a), m(19, 1), "dup-if-cond-not"},
+		{fmt.Sprintf("if %s.fld.deep then sink(1) elseif %s.fld.deep then sink(2) end", a, a), m(19, 1), "dup-if-cond-member-path"},
+		{fmt.Sprintf("if %s == nil then sink(1) elseif %s == false then sink(2) end", a, a), m(), "near-if-nil-versus-false"},
+		{fmt.Sprintf("if nil then sink(1) elseif false then sink(2) elseif %s then sink(3) end", a), m(), "near-if-literal-nil-versus-false"},
 		// 20: self assignment
 		{fmt.Sprintf("%s = %s", a, a), m(20, 1), "self-assign"},
 		{fmt.Sprintf("%s.fld = %s.fld", a, a), m(20, 1), "self-assign-member"},
